@@ -538,6 +538,8 @@ class Inliner:
         # remove helper families that are no longer referenced
         refs = set()
         for b in bodies:
+            if b.get("promoted_of"):
+                continue        # promoted constants are data: they neither keep a helper alive nor are they removed
             owner = b["def"]
             for blk in b["blocks"]:
                 t = blk["term"]
